@@ -169,6 +169,14 @@ def gen_world(rng, tier="quick"):
             files.append({"path": f"LICENSES/{sub}{lic}{ext}", "content": f"text of {lic}\n"})
             if rng.chance(0.1):
                 files.append({"path": f"LICENSES/{sub}{lic}{ext}.license", "content": "SPDX-License-Identifier: CC0-1.0\n"})
+    if rng.chance(0.07) and lic_names:
+        # two files that resolve to one identifier (the tool refuses such a tree; it must do so in every environment)
+        lic = rng.pick(sorted(lic_names))
+        have = {f["path"] for f in files}
+        for ext in (".md", "", ".txt"):
+            if f"LICENSES/{lic}{ext}" not in have and f"LICENSES/sub/{lic}{ext}" not in have:
+                files.append({"path": f"LICENSES/{lic}{ext}", "content": f"another text of {lic}\n"})
+                break
     if rng.chance(0.15):
         files.append({"path": "LICENSES/Foo-1.0.txt", "content": "unknown licence\n"})
     if rng.chance(0.1):
